@@ -482,7 +482,7 @@ func (r *runner) oneConfig(id string, p *vd.Policy, styleSeed int64) bool {
 			if rerr == nil {
 				return r.mismatch(Mismatch{Case: id, Request: cfgReq, Go: "read back without error", Model: modelReply,
 					FailingInput: describe("a policy with an unnamed action was marshalled and read back without an error: " + firstDifference(normalisePolicy(orig), normalisePolicy(*back))),
-					Key: "config:" + f.name + ":unnamed"})
+					Key:          "config:" + f.name + ":unnamed"})
 			}
 			r.tag("unnamed:rejected-on-read")
 			continue
@@ -494,7 +494,7 @@ func (r *runner) oneConfig(id string, p *vd.Policy, styleSeed int64) bool {
 			}
 			return r.mismatch(Mismatch{Case: id, Request: cfgReq, Go: "read error: " + rerr.Error(), Model: modelReply,
 				FailingInput: describe("the configuration loader rejects the text form of a policy that compiles in memory: " + rerr.Error()),
-				Key: "config:" + f.name + ":read-error"})
+				Key:          "config:" + f.name + ":read-error"})
 		}
 		if f.name == "json-marshal/ucfg-json" {
 			// go-ucfg's json package decodes every number into a float64 (third-party behaviour, outside /repo and outside the
@@ -529,7 +529,7 @@ func (r *runner) oneConfig(id string, p *vd.Policy, styleSeed int64) bool {
 		if backReply != memReply || !vd.ComparePolicy(backReply, modelReply, p.Arch) {
 			return r.mismatch(Mismatch{Case: id, Request: cfgReq, Go: backReply, Model: modelReply,
 				FailingInput: describe("the policy read back compiles to a different program than the in-memory policy; first difference of the values: " + diff),
-				Key: "config:" + f.name + ":" + strings.SplitN(diff, " ", 2)[0]})
+				Key:          "config:" + f.name + ":" + strings.SplitN(diff, " ", 2)[0]})
 		}
 		if diff != "" {
 			// same program although the values differ: report, the forms are meant to denote the same policy
